@@ -45,7 +45,8 @@ def t_serialize(repo, specs, r):
         it = mk(ctx, repo, specs)
         maxres = it.module_global(repo.module("a5.core.serialization"), "MAX_RESOLUTION")
         cell, inputs = sym_cell(it, ctx, "c", r, rmax=maxres)
-        env = {"cell": cell, "MAXR": maxres}
+        before = dict(cell)
+        env = {"cell": dict(cell), "MAXR": maxres}
         unfit = it.spec_bool('cell["resolution"] > MAXR or cell["S"] >= SLIMIT(cell["resolution"])', env)
         try:
             res = it.call(SER, cell)
@@ -56,6 +57,10 @@ def t_serialize(repo, specs, r):
         rr = cell["resolution"]
         # the clause is about resolutions 0..MAX_RESOLUTION; the world cell (-1) has no position at all
         ctx.oblige("never-silently-encodes-unfit-position", zor(znot(unfit), zbool(it.ops.compare("<", rr, 0))), None, "post")
+        # frame: the id is a function of the cell's fields only if encoding leaves no trace in its argument
+        same = set(cell.keys()) == set(before.keys()) and all(cell[k] is before[k] for k in before)
+        ctx.oblige("frame:serialize-does-not-modify-its-argument", same, None, "frame")
+        cell = dict(before)
         world = zbool(it.ops.compare("==", rr, -1))
         inrange = zand(zbool(it.ops.compare(">=", res, 1)), zbool(it.ops.compare("<", res, 1 << 64)))
         ctx.oblige("id-in-[1,2^64)-or-world-0", z3.If(world, zbool(it.ops.compare("==", res, 0)), inrange), None, "post")
